@@ -81,6 +81,29 @@ theorem sliceCast_text (lhs rhs typ cast : String) :
       "for i, e := range " ++ rhs ++ "{\n" ++ lhs ++ "[i] = " ++ cast ++ "(e)\n}\n}\n" := by
   unfold renderSliceCast sliceHead; str_eq
 
+/-- the operator of the element conversion never begins with `*`: a pointer element type is written
+`(*T)(e)` (the repaired `*T(e)`, which Go reads as a dereference of `T(e)`) -/
+theorem conversionOperator_no_star (s : String) : (conversionOperator s).toList.head? ≠ some '*' := by
+  unfold conversionOperator
+  split
+  · simp [String.toList_append]
+  · rename_i h
+    simpa using h
+
+/-- and it is the type name itself unless that begins with `*` -/
+theorem conversionOperator_plain (s : String) (h : s.toList.head? ≠ some '*') : conversionOperator s = s := by
+  unfold conversionOperator
+  simp [h]
+
+/-- the conversion of the slice statement is that operator applied to the element type's name -/
+theorem sliceCast_operator (ctx : BCtx) (lhs rhs : Node) (t c : String)
+    (h : ctx.sliceToSlice lhs rhs = .ok (some (.sliceCast lhs rhs t c))) :
+    c = conversionOperator (ctx.env.typeNameF (ctx.env.sliceElem (lhs.exprType ctx.env))) := by
+  unfold BCtx.sliceToSlice at h
+  simp only at h
+  repeat' split at h
+  all_goals first | (cases h; rfl) | cases h
+
 /-! ### "slice field" means a member whose *underlying* type is a slice: members of a defined slice
 type (`type Names []string`) are slices for the builder too (the repaired DESIGN §5 #17; before, they
 fell through to a plain assignment that shares the backing array). -/
